@@ -26,6 +26,7 @@ import (
 	"github.com/inbucket/inbucket/v3/pkg/server/web"
 	"github.com/inbucket/inbucket/v3/pkg/webui/sanitize"
 	"golang.org/x/net/html"
+	"golang.org/x/net/html/atom"
 	stdhtml "html"
 	"verifharness/vh"
 )
@@ -142,9 +143,48 @@ func declHeads(v string) []string {
 	return out
 }
 
+// treeReport parses the final output as a browser would build the tree (fragment in a body
+// context) and reports the same kinds of findings on the element nodes.
+func treeReport(final string) []string {
+	ctx := &html.Node{Type: html.ElementNode, Data: "body", DataAtom: atom.Body}
+	nodes, err := html.ParseFragment(strings.NewReader(final), ctx)
+	if err != nil {
+		return []string{"X"}
+	}
+	var out []string
+	var walk func(n *html.Node)
+	walk = func(n *html.Node) {
+		if n.Type == html.ElementNode {
+			name := strings.ToLower(n.Data)
+			if forbidden[name] {
+				out = append(out, "E:"+vh.HS(name))
+			}
+			for _, a := range n.Attr {
+				k := strings.ToLower(a.Key)
+				if strings.HasPrefix(k, "on") {
+					out = append(out, "A:"+vh.HS(k))
+				}
+				if scriptURL(a.Val) {
+					out = append(out, "J:"+vh.HS(k)+":"+vh.HS(a.Val))
+				}
+				if k == "style" {
+					out = append(out, declHeads(a.Val)...)
+				}
+			}
+		}
+		for c := n.FirstChild; c != nil; c = c.NextSibling {
+			walk(c)
+		}
+	}
+	for _, n := range nodes {
+		walk(n)
+	}
+	return out
+}
+
 func report(final string) string {
 	z := html.NewTokenizer(strings.NewReader(final))
-	var out []string
+	out := treeReport(final)
 	for {
 		tt := z.Next()
 		if tt == html.ErrorToken {
